@@ -39,6 +39,40 @@ theorem meanRatio_single (r : F32) (hr : Ok r) : meanRatio [r] = r ∨ ((meanRat
     have hr3 : ¬ (r.key < 0) := by rw [hk]; decide
     simp [hr1, hr2, ho1, ho2, ho3, hr3]
 
+/-- in the fully modelled world `chaosOfText` is `mess_ratio` of the text itself (a chaos that counts as "below the
+    threshold" cannot be the infinite mean of an overflowing sum) -/
+theorem chaosOfText_full_eq (menv : Md.MdEnv) (cenv : Coh.CohEnv) (o : Oracle) {t : Text} {thr chaos : F32}
+    (hthr : thr.isNaN = false) (hge : Fl.ge chaos thr = false)
+    (hch : chaosOfText (worldFull menv cenv o) t thr = .ok chaos) :
+    chaos = (if t.isEmpty then Fl.zero else Md.messRatio menv t thr) := by
+  unfold chaosOfText at hch
+  by_cases hemp : t.isEmpty = true
+  · rw [if_pos hemp] at hch ⊢
+    exact (Except.ok.inj hch).symm
+  · rw [if_neg hemp] at hch ⊢
+    have hmess : (worldFull menv cenv o).mess t thr = messGuarded menv t thr := rfl
+    rw [hmess] at hch
+    unfold messGuarded at hch
+    by_cases hlen : t.length + 1 < 2 ^ 64
+    · rw [if_pos hlen] at hch
+      have hch' : meanRatio [Md.messRatio menv t thr] = chaos := Except.ok.inj hch
+      have hok := Md.messRatio_ok menv t thr hlen
+      rcases meanRatio_single _ hok with heq | ⟨hinf, _⟩
+      · rw [← hch', heq]
+      · -- an infinite chaos cannot be below a numeric threshold
+        exfalso
+        rw [← hch'] at hge
+        unfold Fl.ge Fl.le at hge
+        have hn : (meanRatio [Md.messRatio menv t thr]).isNaN = false := by
+          unfold Fl.isNaN; simp [hinf]
+        simp only [hthr, hn, Bool.not_false, Bool.true_and, decide_eq_false_iff_not, Int.not_le] at hge
+        unfold Fl.isNaN at hthr
+        simp only [decide_eq_false_iff_not, Nat.not_lt] at hthr
+        rw [hinf] at hge
+        omega
+    · rw [if_neg hlen] at hch
+      cases hch
+
 /-- **C13 for the fully modelled world**: for an input that fits the window (non-lazy path) the chaos
     of every regular candidate *is* `mess_ratio` of its whole decoded text – exactly, the mean over the
     single chunk adds nothing (`x + 0 = x`, `x / 1 = x`). -/
@@ -54,33 +88,6 @@ theorem C13_chaos_is_mess_ratio_full (menv : Md.MdEnv) (cenv : Coh.CohEnv) (o : 
   intro m hm c hc hge hsmall
   obtain ⟨t, ht, hch⟩ := C13_chaos_of_text (W := worldFull menv cenv o) sortMatches_perm (hchars_full menv cenv o) hincl hexcl hfit hthr hb h
     m hm c hc hge hsmall
-  refine ⟨t, ht, ?_⟩
-  unfold chaosOfText at hch
-  by_cases hemp : t.isEmpty = true
-  · rw [if_pos hemp] at hch ⊢
-    exact (Except.ok.inj hch).symm
-  · rw [if_neg hemp] at hch ⊢
-    have hmess : (worldFull menv cenv o).mess t s.thr = messGuarded menv t s.thr := rfl
-    rw [hmess] at hch
-    unfold messGuarded at hch
-    by_cases hlen : t.length + 1 < 2 ^ 64
-    · rw [if_pos hlen] at hch
-      have hch' : meanRatio [Md.messRatio menv t s.thr] = c.chaos := Except.ok.inj hch
-      have hok := Md.messRatio_ok menv t s.thr hlen
-      rcases meanRatio_single _ hok with heq | ⟨hinf, _⟩
-      · rw [← hch', heq]
-      · -- an infinite chaos cannot be below a numeric threshold
-        exfalso
-        rw [← hch'] at hge
-        unfold Fl.ge Fl.le at hge
-        have hn : (meanRatio [Md.messRatio menv t s.thr]).isNaN = false := by
-          unfold Fl.isNaN; simp [hinf]
-        simp only [hthr, hn, Bool.not_false, Bool.true_and, decide_eq_false_iff_not, Int.not_le] at hge
-        unfold Fl.isNaN at hthr
-        simp only [decide_eq_false_iff_not, Nat.not_lt] at hthr
-        rw [hinf] at hge
-        omega
-    · rw [if_neg hlen] at hch
-      cases hch
+  exact ⟨t, ht, chaosOfText_full_eq menv cenv o hthr hge hch⟩
 
 end Charset
